@@ -291,6 +291,19 @@ def _some_function(x):
 _OBJ = object()
 
 
+def gen_plain_value(targ):
+    """one fixed conforming value AST for a type argument name (used by enumerations)"""
+    return {
+        "int": V("int", x=1),
+        "str": V("str", x="s"),
+        "bool": V("bool", x=True),
+        "Inner": V("state", s="Inner", f={"v": V("int", x=1)}),
+        "Color": V("enum", e="Color", m="RED"),
+        "seq_int": V("tuple", items=[V("int", x=1)]),
+        "seq_str": V("tuple", items=[V("str", x="s")]),
+    }.get(targ)
+
+
 def _targ_type(name):
     if name == "seq_int":
         return Sequence[int]
